@@ -12,8 +12,8 @@ import (
 
 func init() {
 	register(&PropDef{
-		ID:    "C17",
-		Level: "other",
+		ID:          "C17",
+		Level:       "other",
 		Explanation: "Structural necessary conditions of 'only valid definitions load and every edit is detected': (1) every field of TaskDef/PipelineDef/PipelinesDef (enumerated from go/types, so new fields are included) is compared by Equals with a sound idiom — maps need a length test, a presence test and a value test — and every 'return true' is dominated by all of them; (2) in the loader every store into the merged pipeline map is preceded on every path by setDefaults, by the validate()==nil edge for the stored value and by the duplicate test; (3) the validation function's branch table over sign classes of concurrency/queue_limit/start_delay equals the stated table and the dependency loop has a presence test; the strategy parser maps exactly the declared constants and errors otherwise; (4) the watcher replaces the definitions on every path where Equals is false. Decides these shapes, not YAML decoding or the behaviour of arbitrary generated inputs.",
 		Trusted:     []string{"gopkg.in/yaml.v2 decoding fidelity", "go/types field enumeration is the type's field list"},
 		NotDecided:  []string{"YAML decoding", "independence of file enumeration order beyond the duplicate test"},
@@ -23,8 +23,8 @@ func init() {
 
 // ifFact: one If with its canonical atom; Succ[v] is the successor index taken when the atom has truth value v.
 type ifFact struct {
-	If   *ssa.If
-	Atom Atom
+	If                  *ssa.If
+	Atom                Atom
 	SuccTrue, SuccFalse int
 }
 
@@ -319,7 +319,9 @@ func checkLoaderPipeline(w *World, r *Report) {
 		if fn.Package() != dp {
 			continue
 		}
-		hasDecode := len(findCalls(fn, func(n string, _ *ssa.CallCommon) bool { return strings.HasSuffix(n, ".Decode") || strings.HasSuffix(n, ".Unmarshal") })) > 0
+		hasDecode := len(findCalls(fn, func(n string, _ *ssa.CallCommon) bool {
+			return strings.HasSuffix(n, ".Decode") || strings.HasSuffix(n, ".Unmarshal")
+		})) > 0
 		if hasDecode {
 			loaders = append(loaders, fn)
 		}
